@@ -3,6 +3,8 @@
 ``schemas(cfg)`` draws a schema as plain JSON.  Each schema draws an independent
 subset of keyword *groups*; sub-schemas recurse with decreasing depth.
 """
+import copy
+
 from hypothesis import strategies as st
 
 from vlib import jsonvals as jv
@@ -14,6 +16,13 @@ PATTERNS = ["^a", "b$", "^[0-9]+$", "^.{2}$", "a|b", "^(foo|ba)$", "[^a]", "x", 
 
 # Property names with pairwise distinct Python images; includes names that need
 # translation (keyword, leading digit, punctuation, reserved dunder).
+OVERLAP_FAMILIES = [
+    [{"type": "string"}, {"minLength": 2}, {"maxLength": 4}, {"pattern": "^a"}],
+    [{"type": "number"}, {"minimum": 0}, {"maximum": 10}, {"multipleOf": 2}],
+    [{"type": "array"}, {"minItems": 1}, {"maxItems": 2}, {"uniqueItems": True}],
+    [{}, {"type": ["string", "integer"]}, {"enum": ["ab", 1, 2, None]}, {"not": {"const": 1}}],
+    [{"minProperties": 1}, {"required": ["a"]}, {"maxProperties": 1}, {"additionalProperties": {"type": "integer"}}],
+]
 PROP_NAMES = ["a", "b", "c", "ab", "a-b", "class", "not", "x1", "1x", "$id", "__init__"]
 
 TITLES = ["Foo", "Bar", "my title", "a1b"]
@@ -183,8 +192,23 @@ def schemas(draw, cfg=None, depth=None, _counter=None):
             )
             s["properties"] = {name: draw(sub()) for name in declared}
         if "patternProperties" in kws:
-            pats = draw(st.lists(st.sampled_from(PATTERNS), min_size=1, max_size=2, unique=True))
+            pool = PATTERNS
+            if declared and draw(st.integers(0, 2)) == 0:
+                # patterns that match a declared name: that member is governed by properties AND by every
+                # matching pattern
+                import re as _re
+                name = draw(st.sampled_from(declared))
+                pool = [p for p in PATTERNS if _re.search(p, name)] or PATTERNS
+            pats = draw(st.lists(st.sampled_from(pool), min_size=1, max_size=3, unique=True))
             s["patternProperties"] = {p: draw(sub()) for p in pats}
+            if pool is not PATTERNS and len(pats) >= 2 and draw(st.booleans()):
+                # ... each contributing ONE constraint of a common family, so that a value can satisfy the
+                # property schema and some of the patterns while violating another
+                family = draw(st.sampled_from(OVERLAP_FAMILIES))
+                parts = draw(st.permutations(family))
+                s["properties"][name] = copy.deepcopy(parts[0])
+                for p, part in zip(pats, parts[1:]):
+                    s["patternProperties"][p] = copy.deepcopy(part)
         if "additionalProperties" in kws:
             s["additionalProperties"] = draw(st.one_of(st.booleans(), sub()))
         if "required" in kws:
